@@ -10,9 +10,9 @@ EndOf(i) == Trace[i].end
 IsEv(e) == l < EndOf(t0) /\ Trace[l].ev = e /\ l' = l + 1
 
 TInit == /\ t0 \in Starts /\ l = t0
-         /\ steps = <<>> /\ inStep = FALSE /\ broken = FALSE /\ cancelled = FALSE /\ silent = FALSE
+         /\ steps = <<>> /\ inStep = FALSE /\ broken = FALSE /\ cancelled = FALSE /\ silent = FALSE /\ ctxd = FALSE
          /\ ready = FALSE /\ result = "idle"
-TrReset == /\ l = t0 /\ IsEv("reset") /\ result' = "none" /\ silent' = Trace[l].silent
+TrReset == /\ l = t0 /\ IsEv("reset") /\ result' = "none" /\ silent' = Trace[l].silent /\ ctxd' = Trace[l].ctxd
            /\ UNCHANGED <<steps, inStep, broken, cancelled, ready>>
 TrNegotiate == IsEv("negotiate") /\ StepBegin
 TrNegRet == IsEv("negret") /\ StepEnd(Trace[l].ok)
